@@ -272,10 +272,10 @@ func RandInt63n(n int64) int64 {
 }
 
 func RandInt31n(n int32) int32 { return int32(RandInt63n(int64(n))) }
-func RandInt() int            { return int(RandInt63n(1 << 30)) }
-func RandInt63() int64        { return RandInt63n(1 << 30) }
-func RandInt31() int32        { return int32(RandInt63n(1 << 30)) }
-func RandUint32() uint32      { return uint32(RandInt63n(1 << 30)) }
+func RandInt() int             { return int(RandInt63n(1 << 30)) }
+func RandInt63() int64         { return RandInt63n(1 << 30) }
+func RandInt31() int32         { return int32(RandInt63n(1 << 30)) }
+func RandUint32() uint32       { return uint32(RandInt63n(1 << 30)) }
 
 func RandPerm(n int) []int {
 	s := cur()
